@@ -320,6 +320,9 @@ K("C11.K.ioreader.fail", C11M, "verif_c11::ioreader_fail", {"C11": "D"}, needs=(
   note="reader failing at any call => Err(DeserializeUnexpectedEnd), no panic")
 K("C11.K.from_io", C11M, "verif_c11::from_io_two_messages", {"C11": "D"}, needs=(REF, PROBES), label="bounded(stream 6 bytes)", fns=["postcard::from_io"],
   note="from_io == take_from_bytes on every 6-byte stream and every short-read schedule; two consecutive messages")
+K("C11.K.writeflavor", C11M, "verif_c11::writeflavor_contract", {"C11": "D"}, needs=(REF, PROBES), label="bounded(block<=3)",
+  fns=["postcard::ser::flavors::io::WriteFlavor::try_push", "postcard::ser::flavors::io::WriteFlavor::try_extend", "postcard::ser::flavors::io::WriteFlavor::finalize"],
+  note="Ok from try_push / try_extend ==> exactly those bytes reached the writer, for a writer that accepts partial writes, becomes full (Ok(0)) or fails at any call")
 K("C11.K.to_io", C11M, "verif_c11::to_io_partial_writes", {"C11": "D"}, needs=(REF, PROBES), label="bounded(encoding<=4 bytes)",
   fns=["postcard::to_io", "postcard::ser::flavors::io::WriteFlavor::try_push", "postcard::ser::flavors::io::WriteFlavor::try_extend", "postcard::ser::flavors::io::WriteFlavor::finalize"],
   note="writer accepting nondeterministic partial writes receives exactly plain(v), flushed once; failing writer => Err, never a panic")
@@ -386,6 +389,10 @@ K("C14.K.derive.structs", C14M, "verif_c14::d_structs", {"C14": "D"}, label="bou
 for v in ["unit", "newtype"]:
     K("C14.K.derive.enum_" + v, C14M, "verif_c14::d_enum_" + v, {"C14": "D"}, label="bounded(corpus)", fns=["postcard_derive::schema (derive output)"],
       note="derive corpus: enum variant form with symbolic payload", **SCH)
+for v in ["unit", "newtype", "tuple", "struct1", "struct2"]:
+    K("C14.K.derive.flat_" + v, C14M, "verif_c14::d_flat_" + v, {"C14": "D"}, label="bounded(corpus)", fns=["postcard_derive::schema (derive output)"],
+      note="derive corpus, enum variant forms incl. one- and two-field struct variants and tuple variants, checked with a non-recursive one-level conformance checker (leaf payloads)", **SCH)
+
 # C16: no Kani obligation. CBMC does not constant-propagate through the &'static schema references and unwinds the recursive
 # hashers over all 26 kinds at every level (no verdict even for depth-2 concrete trees in 5 min, measured). The Route-V stubs
 # D10 (T::SCHEMA read) and D3' (final to_le_bytes) are therefore listed as trusted in the evidence.
@@ -428,7 +435,7 @@ ASSUMPTIONS = {
     "C11": ["bounded: stream <= 6 bytes, scratch <= 4, because std's read_exact / write_all loops are bounded by the requested count; embedded-io adapters are not covered in the quick tier", A_SERDE],
     "C12": [A_SERDE, "#[derive(MaxSize)] is a token-stream generator: not covered by any contract (no corpus harness could be built inside the postcard crate because the derive emits ::postcard paths)", A_PARAM],
     "C13": [A_SERDE, "macro-generated impls are verified after expansion (Kani works on MIR)"],
-    "C14": [A_SERDE, A_PARAM, "derive output: bounded corpus only (token-stream generator); tuple/struct enum variants of the corpus are intractable for CBMC and not covered", "std collections (Vec, String, maps, sets) and heapless containers: only the shape of the schema constant is checked", "chrono, nalgebra, uuid impls not covered", "'a schema-driven reader parses every encoding' is not proved as a lemma"],
+    "C14": [A_SERDE, A_PARAM, "derive output: bounded corpus only (token-stream generator); tuple/struct enum variants are checked with a non-recursive one-level checker (leaf payloads only)", "std collections (Vec, String, maps, sets) and heapless containers: only the shape of the schema constant is checked", "chrono, nalgebra, uuid impls not covered", "'a schema-driven reader parses every encoding' is not proved as a lemma"],
     "C15": [A_SERDE, "bounded: one concrete tree per node kind (depth <= 3); lifting to all trees relies on compositionality of serde_derive output"],
     "C16": ["recursive exec hashers carry #[verifier::exec_allows_no_decreases_clause]: their termination is not proved (the spec functions' termination is)", "stub D10: T::SCHEMA is read through schema_of::<T>() (uninterpreted); stub D3': the final .to_le_bytes() of hash_ty_path / hash_ty_path_owned is dropped - both trusted (Kani cannot discharge them: recursion over &'static schema trees is intractable for CBMC, measured)", "the 33-entry tag table is transcribed from the comments of key/hash.rs (the only documentation); sensitivity is proved for the tag STREAM, not for the 64-bit key (collisions exist by counting)"],
     "C17": ["partial: private varint / zig-zag copies (Verus, unbounded) and scalar leaf arms (Kani, complete); the composite arms (Option/Seq/Tuple/Map/Struct/Enum) walking serde_json::Value are NOT covered", "serde_json::Value results are mem::forget-ed in harnesses (drop glue intractable)"],
